@@ -304,11 +304,41 @@ def nul_cases(run, names):
                                       repro=f"import passlib.hash as H\nprint(H.{name}.hash({pw!r}))")
 
 
+def nul_verify(run, names):
+    """a password containing NUL is refused on the verify path as well (hasher and context), never compared"""
+    from passlib.context import CryptContext
+    for name in names:
+        rng = run.rng("nulv:" + name)
+        h = H.get(name)
+        if not H.usable(name):
+            continue
+        hh = H.apply(h, cheap(h))
+        good = hh.hash("pass")
+        ctx = CryptContext(schemes=[name], **{f"{name}__{k}": v for k, v in cheap(h).items()})
+        for pw in ("pass\x00junk", b"pass\x00", "\x00pass", b"pa\x00ss", "pass\x00"):
+            for who, fn in (("hasher.verify", lambda: h.verify(pw, good)), ("context.verify", lambda: ctx.verify(pw, good)), ("context.verify_and_update", lambda: ctx.verify_and_update(pw, good))):
+                try:
+                    r = fn()
+                    raised = None
+                except ValueError:
+                    raised = "ValueError"
+                except Exception as e:
+                    raised = type(e).__name__
+                run.case((name, "nul-verify", who, isinstance(pw, bytes)), dict(hasher=name, password=pw, call=who, raised=raised))
+                run.count("nul_verify_cases")
+                if raised != "ValueError":
+                    run.violation(f"C05|{name}|nul-on-verify-path|{'accepted' if raised is None else raised}",
+                                  f"{name}: {who} of a password containing NUL " + (f"returned {r!r}" if raised is None else f"raised {raised}") + " instead of refusing it (PasswordValueError)",
+                                  dict(hasher=name, password=pw, call=who),
+                                  repro=f"import passlib.hash as H\nh=H.{name}\nprint(h.verify({pw!r}, {good!r}))")
+
+
 def body(run):
     shards = [("trunc_cases", dict(name=n)) for n in TRUNC] + [("cisco_cases", dict(name=n)) for n in CISCO]
     names = H.names()
     shards += [("max_size", dict(names=names[i::6])) for i in range(6)]
     shards += [("nul_cases", dict(names=CRYPT_NUL[i::3])) for i in range(3)]
+    shards += [("nul_verify", dict(names=CRYPT_NUL[i::3])) for i in range(3)]
     by = {}
     for f, a in shards:
         by.setdefault(f, []).append(a)
@@ -319,6 +349,7 @@ def body(run):
     for s in ("hasher.using", "context-wide", "context-scheme"):
         run.require(f"site:{s}", 50)
     run.require("nul_cases", 200)
+    run.require("nul_verify_cases", 100)
     for n in names:
         if H.usable(n):
             run.require(f"max:{n}", 4)
